@@ -23,7 +23,10 @@ def main(tier):
     data = e2props.load(run, profiles, ["iters"])
     for (prof, entry), recs in sorted(data.items()):
         rows = {}
+        e2props.undecided(run, [r for r in recs if "table" not in r], prof)
         for rec in recs:
+            if "table" not in rec:
+                continue
             name, meth = rec["table"].split("::", 1)
             if name not in KINDS:
                 continue
@@ -34,7 +37,7 @@ def main(tier):
                 run.ob("decided", "%s/%s decided" % (rec["table"], prof), False, key="decided|%s: %s" % (rec["table"], (rec.get("msg") or rec["exit"])[:80]), detail=rec)
                 continue
             stt, links = rec.get("state", {}), rec.get("links", {})
-            h, t = stt.get("0/head"), stt.get("0/tail")
+            h, t = stt.get("head"), stt.get("tail")
             if meth == "new":
                 x = rec["node"]
                 facts_ = rec.get("facts", {})
@@ -58,9 +61,9 @@ def main(tier):
                            key="constructor|%s::new builds (Some(node), None) for a parentless node: next_back()/rev() yield nothing" % name, detail=rec, nontrivial=nt, sample=True)
                     if some:
                         e = t[1]
-                        ends = rec.get("ends", {}).get("0/tail", {})
+                        ends = rec.get("ends", {}).get("tail", {})
                         end_ok = ends.get(fwd, "unk") is None
-                        reach_ok = (e == x) or [fwd, x, e] in rec.get("reach", []) or rec.get("ends", {}).get("0/head", {}).get(fwd) == e
+                        reach_ok = (e == x) or [fwd, x, e] in rec.get("reach", []) or rec.get("ends", {}).get("head", {}).get(fwd) == e
                         run.ob("constructor", "%s::new/%s (parentless node): back cursor is the end of the node's chain" % (name, prof), end_ok and reach_ok,
                                key="constructor|%s::new: back cursor of a parentless node is not the end of its sibling chain" % name, detail=rec, nontrivial=nt)
                 else:
